@@ -220,7 +220,8 @@ def rule_limits(ck):
     ck.need(all(f in fields for f in ("enabled", "max_parts", "max_part_header_size")), "ParseMultipartConfig fields missing")
     for f in ("max_parts", "max_part_header_size"):
         try:
-            v = q.fold(fields[f], {})
+            from ..x_resolve import fold_with_module
+            v = fold_with_module(ck.repo.module(HU), fields[f])   # a default hoisted to a module-level constant is folded through
         except q.NotFoldable:
             raise AnalysisError("default of ParseMultipartConfig.%s is not a constant" % f)
         ck.ob("C30.config", None, cls, isinstance(v, int) and 0 < v < 10 ** 7, "default %s is a finite positive bound (%r)" % (f, v), construct="default %s" % f, file=HU)
